@@ -108,6 +108,15 @@ static void prep(tstate *t) {
     } else if(!strcmp(s->scen, "life") || !strcmp(s->scen, "misc")) {
         t->fd1 = tmp_file_with("ql", s->a.p, s->a.n);
         if(s->b.n) t->fd2 = tmp_file_with("qL", s->b.p, s->b.n);
+    } else if(!strcmp(s->scen, "bigrange")) {
+        /* a: on-disk state of a file with thousands of one-byte chunks, every other one damaged: the rendered request is
+         * longer than the renderer's initial buffer.  Opening and scanning happen here, the region only builds and renders */
+        t->fd1 = tmp_file_with("qg", s->a.p, s->a.n);
+        t->z1 = zck_create();
+        if(!zck_init_read(t->z1, t->fd1)) die("sched: bigrange file does not open");
+        zck_find_valid_chunks(t->z1);
+        zck_reset_failed_chunks(t->z1);
+        zck_clear_error(t->z1);
     } else if(!strcmp(s->scen, "writefail")) {
         int pf[2];
         if(pipe2(pf, O_NONBLOCK) != 0) die("sched: pipe");
@@ -274,6 +283,14 @@ static void body(void *v) {
         int cl = ok ? zck_close(z) : -9;
         if(z) zck_free(&z);
         snprintf(t->obs, sizeof t->obs, "writefail:ok=%d:rets=%zd,%zd:close=%d", ok, r1, r2, cl);
+    } else if(!strcmp(s->scen, "bigrange")) {
+        zckRange *r = zck_get_missing_range(t->z1, -1);
+        char *rs = r ? zck_get_range_char(t->z1, r) : NULL;
+        size_t n = rs ? strlen(rs) : 0;
+        sha256_hex(rs ? rs : "", n, h);
+        snprintf(t->obs, sizeof t->obs, "bigrange:count=%d:len=%zu:%.32s", r ? zck_get_range_count(r) : -1, n, h);
+        free(rs);
+        if(r) zck_range_free(&r);
     } else if(!strcmp(s->scen, "misc")) {
         obsacc *o = calloc(1, sizeof *o);
         for(int ty = 0; ty < 7; ty++) oa(o, "%s,%s;", zck_hash_name_from_type(ty), zck_comp_name_from_type(ty));
